@@ -157,6 +157,20 @@ class Cfg:
         self.blocks = {b["id"]: b for b in c["blocks"]}
         self.succ = {b["id"]: [s for s in b["succ"] if s is not None] for b in c["blocks"]}
         self.raw_succ = {b["id"]: b["succ"] for b in c["blocks"]}
+        # expression-level assertions (BOOST_ASSERT / assert: `cond ? (void)0 : fail()`): the failing outcome
+        # never continues; it is not a guard of the code that follows, so its edge is dropped
+        self.assert_blocks = set()
+        for b in c["blocks"]:
+            if b.get("termk") in ("ConditionalOperator", "BinaryOperator") and len(self.succ[b["id"]]) == 2:
+                keep = []
+                for s2 in self.succ[b["id"]]:
+                    sb = self.blocks[s2]
+                    nr = sb.get("noreturn") or (len(self.succ[s2]) == 1 and not sb.get("stmts") and self.blocks[self.succ[s2][0]].get("noreturn"))
+                    if not nr:
+                        keep.append(s2)
+                if len(keep) == 1:
+                    self.succ[b["id"]] = keep
+                    self.assert_blocks.add(b["id"])
         self.pred = {b: [] for b in self.blocks}
         for b, ss in self.succ.items():
             for s in ss:
